@@ -130,15 +130,15 @@ func lockingHistory(w *tracew.Writer, seed int64, run, depth int, o LockingOpts)
 }
 
 type lockGen struct {
-	s      *Session
-	r      *rand.Rand
-	nextID int
-	nv     int
-	mode   string
-	clean  bool // only requests the modules accept (the block message must then succeed)
-	exodus bool // this block: every validator, the bedrock one included, withdraws everything (the whole set leaves at once)
-	afterBurst int // burst mode: 2 = the next block adds a later maturity instant, 1 = the one after jumps the clock over both
-	boost  bool // this block: nothing but creations and generous locks, so that several validators are active afterwards
+	s          *Session
+	r          *rand.Rand
+	nextID     int
+	nv         int
+	mode       string
+	clean      bool // only requests the modules accept (the block message must then succeed)
+	exodus     bool // this block: every validator, the bedrock one included, withdraws everything (the whole set leaves at once)
+	afterBurst int  // burst mode: 2 = the next block adds a later maturity instant, 1 = the one after jumps the clock over both
+	boost      bool // this block: nothing but creations and generous locks, so that several validators are active afterwards
 }
 
 func (g *lockGen) id() int { g.nextID++; return g.nextID }
